@@ -58,7 +58,7 @@ var (
 	c04LocalHosts = []string{"localhost", "LOCALHOST", "LocalHost", "127.0.0.1", "127.0.0.7", "127.255.255.254", "0.0.0.0",
 		"[::1]", "[0:0:0:0:0:0:0:1]", "[::]", "[::0]", "[0:0:0:0:0:0:0:0]", "[::ffff:127.0.0.1]", "[::ffff:0.0.0.0]", "[::FFFF:7F00:1]", "[0000::0001]", "localhost.", "LocalHost.", "[::1%25lo]"}
 	c04Creds = []string{"none", "exact", "exact", "exact", "wrong-user", "wrong-pass", "pass-prefix", "pass-suffix", "pass-case", "user-case", "scheme-lower", "bearer", "digest",
-		"bad-base64", "no-colon", "as-authorization", "empty-value", "two-right-wrong", "two-wrong-right", "exact-mixed-case-name"}
+		"bad-base64", "no-colon", "as-authorization", "empty-value", "two-right-wrong", "two-wrong-right", "exact-mixed-case-name", "token-upper", "token-lower", "token-flip-one"}
 )
 
 func genC04(t *rapid.T) C04Case {
@@ -353,6 +353,31 @@ func credHeader(cfg C04Config, shape string) (lines []string, authed *bool) {
 		return []string{pa("Basic " + b64(strings.ToUpper(user)+":"+pass))}, &no
 	case "scheme-lower":
 		return []string{pa("basic " + b64(user+":"+pass))}, &yes // auth-scheme is case-insensitive
+	case "token-upper", "token-lower", "token-flip-one":
+		// the credentials are the octets the token decodes to: base64 is case-sensitive, another letter case is another
+		// user or password (or no user:password pair at all)
+		tok := b64(user + ":" + pass)
+		alt := strings.ToUpper(tok)
+		switch shape {
+		case "token-lower":
+			alt = strings.ToLower(tok)
+		case "token-flip-one":
+			alt = tok
+			for i, ch := range tok {
+				if ch >= 'a' && ch <= 'z' {
+					alt = tok[:i] + strings.ToUpper(tok[i:i+1]) + tok[i+1:]
+					break
+				}
+				if ch >= 'A' && ch <= 'Z' {
+					alt = tok[:i] + strings.ToLower(tok[i:i+1]) + tok[i+1:]
+					break
+				}
+			}
+		}
+		if alt == tok {
+			return []string{pa("Basic " + tok)}, &yes
+		}
+		return []string{pa("Basic " + alt)}, &no
 	case "bearer":
 		return []string{pa("Bearer " + b64(user+":"+pass))}, &no
 	case "digest":
